@@ -329,7 +329,7 @@ class FakeSocket:
                 raise SimpleError(msgs.SYNTAX_ERROR_MSG)
 
         if cursor >= len(keys):
-            return [0, []]
+            return [b'0', []]
         data = sorted(keys)
         # A huge COUNT must not overflow the slice bounds
         result_cursor = min(cursor + count, len(data))
